@@ -130,17 +130,22 @@ class Device:
         return h(data)
 
     # -- common
+    echo_bad = False
+    onboard_status = None        # answer IS_ONBOARD with this status word instead
+
     def cmd_43(self, data):      # GET_MODE
         return D(CLA, self.mode)
 
     def cmd_06(self, data):      # IS_ONBOARD
+        if self.onboard_status is not None:
+            return self.err(self.onboard_status)
         v = self.ui_version if self.mode in (2, 4) else self.version
         return D(CLA, 1 if self.onboarded else 0, *v)
 
     # -- bootloader / UI
     def cmd_02(self, data):
         if self.mode == 2:       # ECHO
-            return D(CLA, 0x02, data)
+            return D(CLA, 0x02, data if not self.echo_bad else bytes(data[:-1]) + b"\x00")
         return self.sign(data)
 
     def cmd_45(self, data):      # RETRIES
@@ -188,7 +193,7 @@ class Device:
 
     # -- SGX variants
     def cmd_a4(self, data):
-        return D(CLA, 0xA4, data)
+        return D(CLA, 0xA4, data if not self.echo_bad else bytes(data[:-1]) + b"\x00")
 
     def cmd_a2(self, data):
         return D(CLA, 0xA2, self.retries)
